@@ -98,7 +98,9 @@ type nopSub struct {
 	verifier func(context.Context, *vhdr.Header) error
 }
 
-func (s *nopSub) Subscribe() (header.Subscription[*vhdr.Header], error) { return nil, errors.New("n/a") }
+func (s *nopSub) Subscribe() (header.Subscription[*vhdr.Header], error) {
+	return nil, errors.New("n/a")
+}
 func (s *nopSub) SetVerifier(f func(context.Context, *vhdr.Header) error) error {
 	s.verifier = f
 	return nil
